@@ -92,6 +92,7 @@ type sval struct {
 	role string
 	lit  *ast.FuncLit
 	not  bool
+	cnd  *cond // svBool: the condition normal form of a comparison / logical expression
 }
 
 // place is a point-valued storage location.
@@ -102,13 +103,15 @@ type place struct {
 	didx *sval // ... or a digit expression (Pippenger bucket)
 }
 
+// cond is a guard in condition normal form (see skelcond.go).
 type cond struct {
-	kind string // dig | flag | int | pred | unknown
+	kind string // dig | flag | int | and | or | unknown
 	dig  *sval
-	rel  string // >0 <0 !=0 ==0 ...
+	rel  string // dig: >0 <0 !=0 ==0 >=0 <=0; int: >0 ==0 !=0
 	flag string
-	not  bool
+	not  bool // flag literals only
 	n    *lin
+	sub  []*cond // and | or
 	desc string
 }
 
@@ -668,7 +671,11 @@ func (x *extractor) ev(e ast.Expr) *sval {
 		case token.NOT:
 			if v.k == svBool {
 				n := *v
-				n.not = !v.not
+				if v.cnd != nil {
+					n.cnd = x.negate(v.cnd)
+				} else {
+					n.not = !v.not
+				}
 				return &n
 			}
 		case token.ADD:
@@ -678,6 +685,16 @@ func (x *extractor) ev(e ast.Expr) *sval {
 	case *ast.StarExpr:
 		return x.ev(e.X)
 	case *ast.BinaryExpr:
+		switch e.Op {
+		case token.LAND, token.LOR, token.LSS, token.GTR, token.LEQ, token.GEQ, token.EQL, token.NEQ:
+			// a boolean value: carry its condition normal form (a local that
+			// names a comparison is the same guard as the comparison itself)
+			c := x.evCond(e)
+			if c.kind == "flag" {
+				return &sval{k: svBool, role: c.flag, not: c.not}
+			}
+			return &sval{k: svBool, role: "cond", cnd: c}
+		}
 		a, b := x.ev(e.X), x.ev(e.Y)
 		if a.k == svDigit && b.k == svInt {
 			if c, ok := b.n.isConst(); ok {
@@ -714,51 +731,7 @@ func (x *extractor) ev(e ast.Expr) *sval {
 	case *ast.IndexExpr:
 		base := x.ev(e.X)
 		idx := x.ev(e.Index)
-		switch base.k {
-		case svDigits:
-			if idx.k != svInt {
-				x.problem(e.Pos(), "digit position is not a bookkeeping integer")
-				return &sval{}
-			}
-			return &sval{k: svDigit, rec: base.rec, term: base.term, pos: idx.n}
-		case svVec:
-			if base.elem == nil {
-				// a slice of points (parameter or make): element place
-				if id, ok := unparen(e.X).(*ast.Ident); ok {
-					if o := objOf(x.info, id); o != nil && x.isPointSlice(o.Type()) {
-						pl := &place{root: o, elem: true}
-						switch idx.k {
-						case svInt:
-							pl.idx = idx.n
-						case svDigit:
-							pl.didx = idx
-						default:
-							x.problem(e.Pos(), "element index of a point slice is neither a bookkeeping integer nor a digit expression")
-						}
-						return &sval{k: svPoint, pl: pl}
-					}
-				}
-				return &sval{k: svRole, role: "each(" + base.role + ")"}
-			}
-			el := *base.elem
-			if idx.k == svInt {
-				switch el.k {
-				case svDigits, svTable:
-					el.term = idx.n
-				}
-			}
-			return &el
-		case svPoint:
-			// indexing an array of points held in a local (table constructors)
-			if base.pl != nil && !base.pl.elem {
-				pl := &place{root: base.pl.root, elem: true}
-				if idx.k == svInt {
-					pl.idx = idx.n
-				}
-				return &sval{k: svPoint, pl: pl}
-			}
-		}
-		return &sval{}
+		return x.index(base, e.X, idx, e.Pos())
 	case *ast.SelectorExpr:
 		// field selection (method values do not occur)
 		if sel := x.info.Selections[e]; sel != nil && sel.Kind() == types.FieldVal {
@@ -1041,17 +1014,7 @@ func (x *extractor) evBuiltin(name string, call *ast.CallExpr) *sval {
 	case "len":
 		v := x.ev(call.Args[0])
 		if v.k == svVec {
-			role := v.role
-			if role == "" {
-				role = "?"
-			}
-			for id, a := range x.sym.atoms {
-				if a.kind == "len" && a.label == role {
-					return &sval{k: svInt, n: x.sym.atomLin(x.sym.atoms[id])}
-				}
-			}
-			a := x.sym.fresh("len", role)
-			return &sval{k: svInt, n: x.sym.atomLin(a)}
+			return &sval{k: svInt, n: x.lenAtom(v.role)}
 		}
 		return &sval{}
 	case "make":
@@ -1295,41 +1258,6 @@ func flipRel(op token.Token) token.Token {
 		return token.LEQ
 	}
 	return op
-}
-
-func (x *extractor) evCond(e ast.Expr) *cond {
-	e = unparen(e)
-	switch e := e.(type) {
-	case *ast.UnaryExpr:
-		if e.Op == token.NOT {
-			c := x.evCond(e.X)
-			n := *c
-			n.not = !c.not
-			return &n
-		}
-	case *ast.BinaryExpr:
-		switch e.Op {
-		case token.LSS, token.GTR, token.LEQ, token.GEQ, token.EQL, token.NEQ:
-			a, b := x.ev(e.X), x.ev(e.Y)
-			op := e.Op
-			if b.k == svDigit && a.k == svInt {
-				a, b, op = b, a, flipRel(op)
-			}
-			if a.k == svDigit && b.k == svInt {
-				if c, ok := b.n.isConst(); ok && c == 0 && a.off == 0 && !a.neg {
-					return &cond{kind: "dig", dig: a, rel: op.String() + "0"}
-				}
-			}
-			if a.k == svInt && b.k == svInt {
-				return &cond{kind: "int", n: a.n.sub(b.n), rel: op.String() + "0"}
-			}
-		}
-	}
-	v := x.ev(e)
-	if v.k == svBool {
-		return &cond{kind: "flag", flag: v.role, not: v.not}
-	}
-	return &cond{kind: "unknown"}
 }
 
 // --- statements ------------------------------------------------------------------
@@ -1645,78 +1573,153 @@ func (x *extractor) switchStmt(s *ast.SwitchStmt) {
 	}
 }
 
+// lenAtom returns the (shared) symbol len(role).
+func (x *extractor) lenAtom(role string) *lin {
+	if role == "" {
+		role = "?"
+	}
+	for _, id := range sortedKeys(x.sym.atoms) {
+		if a := x.sym.atoms[id]; a.kind == "len" && a.label == role {
+			return x.sym.atomLin(a)
+		}
+	}
+	return x.sym.atomLin(x.sym.fresh("len", role))
+}
+
+// index gives the abstract value of base[idx]; baseE is the indexed expression.
+// `for i, v := range s` binds v to index(s, i), so that the range form and the
+// counted form `for i := 0; i < len(s); i++ { v := s[i] }` denote the same
+// values.
+func (x *extractor) index(base *sval, baseE ast.Expr, idx *sval, pos token.Pos) *sval {
+	switch base.k {
+	case svDigits:
+		if idx.k != svInt {
+			x.problem(pos, "digit position is not a bookkeeping integer")
+			return &sval{}
+		}
+		return &sval{k: svDigit, rec: base.rec, term: base.term, pos: idx.n}
+	case svVec:
+		if base.elem == nil {
+			// a slice of points (parameter or make): element place
+			if id, ok := unparen(baseE).(*ast.Ident); ok {
+				if o := objOf(x.info, id); o != nil && x.isPointSlice(o.Type()) {
+					pl := &place{root: o, elem: true}
+					switch idx.k {
+					case svInt:
+						pl.idx = idx.n
+					case svDigit:
+						pl.didx = idx
+					default:
+						x.problem(pos, "element index of a point slice is neither a bookkeeping integer nor a digit expression")
+					}
+					return &sval{k: svPoint, pl: pl}
+				}
+			}
+			if t := x.info.Types[baseE].Type; t != nil {
+				if sl, ok := t.Underlying().(*types.Slice); ok {
+					if _, inner := sl.Elem().Underlying().(*types.Slice); inner {
+						// an element of a slice of slices: a slice of the same role
+						return &sval{k: svVec, role: base.role}
+					}
+				}
+			}
+			return &sval{k: svRole, role: "each(" + base.role + ")"}
+		}
+		el := *base.elem
+		if idx.k == svInt {
+			switch el.k {
+			case svDigits, svTable:
+				el.term = idx.n
+			}
+		}
+		return &el
+	case svPoint:
+		// indexing an array of points held in a local (table constructors)
+		if base.pl != nil && !base.pl.elem {
+			pl := &place{root: base.pl.root, elem: true}
+			if idx.k == svInt {
+				pl.idx = idx.n
+			}
+			return &sval{k: svPoint, pl: pl}
+		}
+	}
+	return &sval{}
+}
+
+// rangeStmt: `for k, v := range X` is the counted loop k = 0..len(X)-1 with v
+// = X[k] (the same node a three-clause loop over len(X) produces).
 func (x *extractor) rangeStmt(s *ast.RangeStmt) {
 	over := x.ev(s.X)
-	n := &node{kind: "each", pos: s.Pos()}
+	at := x.sym.fresh("loop", "")
+	atL := x.sym.atomLin(at)
+	var to *lin
 	role := over.role
-	if over.k != svVec {
-		// range over a local array (for i := range Ai): a counting loop over its length
+	switch {
+	case over.k == svVec:
+		if role == "" {
+			role = "?"
+		}
+		to = x.lenAtom(role).addConst(-1)
+	default:
+		// range over a local array (for i := range Ai): its length is a constant
 		if t := x.info.Types[s.X].Type; t != nil {
 			if p, ok := t.Underlying().(*types.Pointer); ok {
 				t = p.Elem()
 			}
 			if arr, ok := t.Underlying().(*types.Array); ok {
-				{
-					at := x.sym.fresh("loop", "")
-					if id, ok := s.Key.(*ast.Ident); ok && id.Name != "_" {
-						x.env[objOf(x.info, id)] = &sval{k: svInt, n: x.sym.atomLin(at)}
-					}
-					x.depth++
-					body := x.collect(func() { x.stmts(s.Body.List) })
-					x.depth--
-					x.emit(&node{kind: "loop", pos: s.Pos(), v: at.id, from: konst(0), to: konst(arr.Len() - 1), step: 1, body: body})
-					return
-				}
+				to = konst(arr.Len() - 1)
 			}
 		}
-		role = "?"
+		if to == nil {
+			role = "?"
+			to = x.lenAtom(role).addConst(-1)
+		}
 	}
-	if role == "" {
-		role = "?"
-	}
-	n.over = role
 	if id, ok := s.Key.(*ast.Ident); ok && id.Name != "_" {
 		if o := objOf(x.info, id); o != nil {
-			at := x.sym.fresh("loop", "")
-			n.v = at.id
-			x.env[o] = &sval{k: svInt, n: x.sym.atomLin(at)}
+			x.env[o] = &sval{k: svInt, n: atL}
+			x.declAt[o] = x.depth
 		}
 	}
 	if id, ok := s.Value.(*ast.Ident); ok && id.Name != "_" {
 		if o := objOf(x.info, id); o != nil {
-			x.locRole[o] = "each(" + role + ")"
-			switch {
-			case x.kn.isPointType(o.Type()):
-				x.env[o] = &sval{k: svPoint, pl: &place{root: o}}
-			default:
-				if sl, ok := o.Type().Underlying().(*types.Slice); ok {
-					_ = sl
-					x.env[o] = &sval{k: svVec, role: role}
-				} else {
-					x.env[o] = &sval{k: svRole, role: "each(" + role + ")"}
+			v := x.index(over, s.X, &sval{k: svInt, n: atL}, s.Pos())
+			if over.k == svVec {
+				x.locRole[o] = "each(" + role + ")"
+				if v.k == svUnknown {
+					v = &sval{k: svRole, role: "each(" + role + ")"}
 				}
+				if v.k == svRole && x.kn.isPointType(o.Type()) {
+					// points reached through something that is not a plain slice variable
+					v = &sval{k: svPoint, pl: &place{root: o}}
+				}
+			}
+			if v.k != svUnknown {
+				x.env[o] = v
 			}
 		}
 	}
 	x.depth++
-	n.body = x.collect(func() { x.stmts(s.Body.List) })
+	body := x.collect(func() { x.stmts(s.Body.List) })
 	x.depth--
-	x.emit(n)
+	x.emit(&node{kind: "loop", pos: s.Pos(), v: at.id, from: konst(0), to: to, step: 1, over: role, body: body})
 }
 
-// loopHeader analyses `for v := S; v ⋈ E; v±±`.
-func (x *extractor) loopHeader(s *ast.ForStmt) (o types.Object, from, to *lin, step int64, excl, ok bool) {
+// loopHeader analyses `for v := S; v ⋈ E; v±±`.  The condition is read in
+// condition normal form with v bound to the loop symbol, so `v < E`, `E > v`,
+// `!(v >= E)` and `v <= E-1` give the same bounds.
+func (x *extractor) loopHeader(s *ast.ForStmt) (o types.Object, at *atom, from, to *lin, step int64, excl, ok bool) {
 	as, isAs := s.Init.(*ast.AssignStmt)
-	if !isAs || as.Tok != token.DEFINE || len(as.Lhs) != 1 || len(as.Rhs) != 1 {
+	if !isAs || (as.Tok != token.DEFINE && as.Tok != token.ASSIGN) || len(as.Lhs) != 1 || len(as.Rhs) != 1 {
 		return
 	}
-	id, isId := as.Lhs[0].(*ast.Ident)
+	id, isId := unparen(as.Lhs[0]).(*ast.Ident)
 	if !isId {
 		return
 	}
-	o = x.info.Defs[id]
+	o = objOf(x.info, id)
 	start := x.ev(as.Rhs[0])
-	if o == nil || start.k != svInt {
+	if o == nil || start.k != svInt || s.Cond == nil {
 		return
 	}
 	isVar := func(e ast.Expr) bool {
@@ -1778,45 +1781,38 @@ func (x *extractor) loopHeader(s *ast.ForStmt) (o types.Object, from, to *lin, s
 	if step == 0 {
 		return
 	}
-	// cond
-	be, isB := unparen(s.Cond).(*ast.BinaryExpr)
-	if !isB {
+	// cond: ±v + rest > 0 with rest independent of v
+	at = x.sym.fresh("loop", "")
+	save, had := x.env[o]
+	x.env[o] = &sval{k: svInt, n: x.sym.atomLin(at)}
+	c := x.evCond(s.Cond)
+	if had {
+		x.env[o] = save
+	} else {
+		delete(x.env, o)
+	}
+	if c.kind != "int" || c.rel != ">0" {
 		return
 	}
-	op := be.Op
-	var boundE ast.Expr
-	switch {
-	case isVar(be.X):
-		boundE = be.Y
-	case isVar(be.Y):
-		boundE = be.X
-		op = flipRel(op)
-	default:
-		return
-	}
-	// the bound must not depend on the loop variable
-	bv := x.ev(boundE)
-	if bv.k != svInt {
+	k := c.n.t[at.id]
+	rest := c.n.addScaled(x.sym.atomLin(at), -k)
+	if rest.mentions(at.id, x.sym.atoms) {
 		return
 	}
 	from = start.n
 	switch {
-	case step == 1 && op == token.LSS:
-		to = bv.n.addConst(-1)
-	case step == 1 && op == token.LEQ:
-		to = bv.n
-	case step == -1 && op == token.GTR:
-		to = bv.n.addConst(1)
-	case step == -1 && op == token.GEQ:
-		to = bv.n
-	case step > 1 && op == token.LSS:
-		to, excl = bv.n, true
-	case step > 1 && op == token.LEQ:
-		to, excl = bv.n.addConst(1), true
-	case step < -1 && op == token.GTR:
-		to, excl = bv.n, true
-	case step < -1 && op == token.GEQ:
-		to, excl = bv.n.addConst(-1), true
+	case step > 0 && k == -1: // v < rest
+		if step == 1 {
+			to = rest.addConst(-1)
+		} else {
+			to, excl = rest, true
+		}
+	case step < 0 && k == 1: // v > -rest
+		if step == -1 {
+			to = rest.scale(-1).addConst(1)
+		} else {
+			to, excl = rest.scale(-1), true
+		}
 	default:
 		return
 	}
@@ -1829,7 +1825,7 @@ func (x *extractor) forStmt(s *ast.ForStmt) {
 		x.foreverStmt(s)
 		return
 	}
-	o, from, to, step, excl, ok := x.loopHeader(s)
+	o, at, from, to, step, excl, ok := x.loopHeader(s)
 	if !ok {
 		// evaluate what we can, flag if the body matters
 		if s.Init != nil {
@@ -1844,7 +1840,6 @@ func (x *extractor) forStmt(s *ast.ForStmt) {
 	if x.scanLoop(s, o, from, to, step) {
 		return
 	}
-	at := x.sym.fresh("loop", "")
 	x.env[o] = &sval{k: svInt, n: x.sym.atomLin(at)}
 	x.declAt[o] = x.depth
 	x.depth++
@@ -1867,9 +1862,47 @@ func (x *extractor) foreverStmt(s *ast.ForStmt) {
 		bad()
 		return
 	}
-	inc, ok1 := list[len(list)-1].(*ast.IncDecStmt)
+	// the counter update: v--, v++, v -= 1, v += 1, v = v - 1
+	var o types.Object
+	step := int64(0)
+	switch inc := list[len(list)-1].(type) {
+	case *ast.IncDecStmt:
+		if id, ok := unparen(inc.X).(*ast.Ident); ok {
+			o = objOf(x.info, id)
+			step = 1
+			if inc.Tok == token.DEC {
+				step = -1
+			}
+		}
+	case *ast.AssignStmt:
+		if len(inc.Lhs) == 1 && len(inc.Rhs) == 1 {
+			if id, ok := unparen(inc.Lhs[0]).(*ast.Ident); ok {
+				obj := objOf(x.info, id)
+				switch inc.Tok {
+				case token.ADD_ASSIGN, token.SUB_ASSIGN:
+					if c, isC := x.constOf(inc.Rhs[0]); isC && (c == 1 || c == -1) {
+						o, step = obj, c
+						if inc.Tok == token.SUB_ASSIGN {
+							step = -c
+						}
+					}
+				case token.ASSIGN:
+					if be, isB := unparen(inc.Rhs[0]).(*ast.BinaryExpr); isB && (be.Op == token.ADD || be.Op == token.SUB) {
+						if i, ok := unparen(be.X).(*ast.Ident); ok && objOf(x.info, i) == obj {
+							if c, isC := x.constOf(be.Y); isC && (c == 1 || c == -1) {
+								o, step = obj, c
+								if be.Op == token.SUB {
+									step = -c
+								}
+							}
+						}
+					}
+				}
+			}
+		}
+	}
 	test, ok2 := list[len(list)-2].(*ast.IfStmt)
-	if !ok1 || !ok2 || test.Init != nil || test.Else != nil || len(test.Body.List) != 1 {
+	if o == nil || step == 0 || !ok2 || test.Init != nil || test.Else != nil || len(test.Body.List) != 1 {
 		bad()
 		return
 	}
@@ -1878,42 +1911,34 @@ func (x *extractor) foreverStmt(s *ast.ForStmt) {
 		bad()
 		return
 	}
-	id, ok := unparen(inc.X).(*ast.Ident)
-	if !ok {
+	start := x.lookupObj(o)
+	if start.k != svInt {
 		bad()
 		return
 	}
-	o := objOf(x.info, id)
-	be, ok := unparen(test.Cond).(*ast.BinaryExpr)
-	if !ok || be.Op != token.EQL {
-		bad()
-		return
-	}
-	var endE ast.Expr
-	if i, ok := unparen(be.X).(*ast.Ident); ok && objOf(x.info, i) == o {
-		endE = be.Y
-	} else if i, ok := unparen(be.Y).(*ast.Ident); ok && objOf(x.info, i) == o {
-		endE = be.X
-	} else {
-		bad()
-		return
-	}
-	start, end := x.ev(id), x.ev(endE)
-	if start.k != svInt || end.k != svInt {
-		bad()
-		return
-	}
-	step := int64(1)
-	if inc.Tok == token.DEC {
-		step = -1
-	}
+	// the exit test in condition normal form: ±(v - E) == 0
 	at := x.sym.fresh("loop", "")
-	x.env[o] = &sval{k: svInt, n: x.sym.atomLin(at)}
+	atL := x.sym.atomLin(at)
+	x.env[o] = &sval{k: svInt, n: atL}
+	c := x.evCond(test.Cond)
+	x.env[o] = start
+	if c.kind != "int" || c.rel != "==0" {
+		bad()
+		return
+	}
+	k := c.n.t[at.id]
+	rest := c.n.addScaled(atL, -k)
+	if (k != 1 && k != -1) || rest.mentions(at.id, x.sym.atoms) {
+		bad()
+		return
+	}
+	end := rest.scale(-k) // k*v + rest == 0  =>  v = -rest/k
+	x.env[o] = &sval{k: svInt, n: atL}
 	x.depth++
 	body := x.collect(func() { x.stmts(list[:len(list)-2]) })
 	x.depth--
 	x.env[o] = &sval{}
-	x.emit(&node{kind: "loop", pos: s.Pos(), v: at.id, from: start.n, to: end.n, step: step, body: body})
+	x.emit(&node{kind: "loop", pos: s.Pos(), v: at.id, from: start.n, to: end, step: step, body: body})
 }
 
 // scanLoop recognises the start-index scan
